@@ -38,7 +38,7 @@ def special_lists():
     # websites whose real top-level domain comes after an earlier-listed one that occurs only as a false positive ('.com' + letter),
     # e-mails with two top-level domains of equal length, blanks around an e-mail
     L['tlds'] = (['www.comics.org', 'my.community.net', 'the.network.de1', 'www.comet.com', 'joe@mail.org.net', 'sam@corp.uk.ca7',
-                  ' alice@yahoo.com', 'bob@gmail.com ', 'www.community.horse.com', 'horSe.community', 'x.commerce.org!'], {})
+                  ' alice@yahoo.com', 'bob@gmail.com ', 'www.community.horse.com', 'horSe.community', 'x.commerce.org!', '1qaz@gmail.com', '1qaz@mail.com.br', 'bob@mail.com.br'], {})
     # coverage boundaries
     L['coverage1'] = (['password1', 'Password1', 'love12', 'abc!'], {'coverage': 1})
     return L
